@@ -427,8 +427,7 @@ class Interp:
                 callexpr = s[2]
                 caller = MMacro(self, "caller", s[1], s[3], scope, st)
                 f = self.ev(callexpr[1], scope, st)
-                args = [self.ev(a, scope, st) for a in callexpr[2]]
-                kw = {n: self.ev(a, scope, st) for n, a in callexpr[3]}
+                args, kw = self.ev_args(callexpr[2], callexpr[3], scope, st)
                 kw["caller"] = caller
                 out.append(model_str(self.call(f, args, kw)))
             elif k == "filterblock":
@@ -658,6 +657,21 @@ class Interp:
                     pass
             return Undef(key)
 
+    def ev_args(self, a, k, scope, st):
+        args = []
+        for x in a:
+            if x[0] == "star":
+                args.extend(self.ev(x[1], scope, st))
+            else:
+                args.append(self.ev(x, scope, st))
+        kw = {}
+        for n, x in k:
+            if n == "**":
+                kw.update(self.ev(x, scope, st))
+            else:
+                kw[n] = self.ev(x, scope, st)
+        return args, kw
+
     def apply_filter(self, name, v, args, kw):
         f = self.filters.get(name)
         if f is None:
@@ -765,8 +779,7 @@ class Interp:
             return {self.ev(a, scope, st): self.ev(b, scope, st) for a, b in e[1]}
         if k == "call":
             f = self.ev(e[1], scope, st)
-            args = [self.ev(a, scope, st) for a in e[2]]
-            kw = {n: self.ev(a, scope, st) for n, a in e[3]}
+            args, kw = self.ev_args(e[2], e[3], scope, st)
             return self.call(f, args, kw)
         if k == "filter":
             v = self.ev(e[1], scope, st)
